@@ -146,7 +146,7 @@ fn probes() -> Vec<[R; 3]> {
 
 /// unit quaternions acting on vectors
 fn action<T: Tier>(rep: &mut Report) {
-    let uq = alphabet::uq(rep.pick(0, 1));
+    let uq = alphabet::uq(1);
     let ps = alphabet::uq(0);
     let ps: Vec<_> = ps.iter().step_by(ps.len() / 6).copied().collect();
     let vs = probes();
